@@ -801,6 +801,7 @@ Proof.
   - apply WS_on_node; [|exact HI]. intros m _. apply Q_S, Q_upd_budget.
   - apply WS_on_node; [|exact HI]. intros m _. apply Q_S. qtv.
   - apply WS_on_node; [|exact HI]. intros m _. apply Q_S. qtv.
+  - apply WS_on_node; [|exact HI]. intros m _. apply Q_S. qtv.
   - destruct (get_node w n) as [m|] eqn:G; [|apply WS_refl]. destruct (is_up m); [|apply WS_refl].
     apply WS_step_task; [eapply get_node_id; exact G|exact HI].
   - apply WS_on_node; [|exact HI]. intros m C. destruct (is_up m && cv_election (n_cv m)); [apply R_S, R_election, C|apply S_refl].
